@@ -84,6 +84,7 @@ structure Outcome (β : Type) where
   delivered : List (List β)
   /-- reading at which the loop was left (`none` for plain joins) -/
   leftAt : Option Rat
+  deriving DecidableEq
 
 def allBatches (w : Worker β) : List β := w.batches.map (·.2)
 
